@@ -156,6 +156,16 @@ pub struct TcpFlow {
     server_data: Vec<TcpData>,
     client_http_parsed: bool,
     server_http_parsed: bool,
+    /// Sequence number of the SYN that opened the flow
+    client_isn: u32,
+    /// Sequence number of the server's SYN-ACK, once seen
+    server_isn: Option<u32>,
+}
+
+/// Bytes stored for one direction of a flow (every segment kept, in or out of order)
+fn buffered_len(data: &[TcpData]) -> usize {
+    data.iter()
+        .fold(0usize, |n, d| n.saturating_add(d.data.len()))
 }
 
 /// Quick check if HTTP data is complete for parsing (supports HTTP/1.x and HTTP/2)
@@ -180,15 +190,20 @@ impl TcpFlow {
         dst_port: u16,
         tcp_data: TcpData,
     ) -> TcpFlow {
+        // Data carried by the SYN itself starts one past the initial sequence number
+        let client_isn = tcp_data.sequence;
+        let first = TcpData { sequence: client_isn.wrapping_add(1), data: tcp_data.data };
         TcpFlow {
             client_ip: src_ip,
             server_ip: dst_ip,
             client_port: src_port,
             server_port: dst_port,
-            client_data: vec![tcp_data],
+            client_data: vec![first],
             server_data: Vec::new(),
             client_http_parsed: false,
             server_http_parsed: false,
+            client_isn,
+            server_isn: None,
         }
     }
     /// Traversing all the data in sequence in the correct order to build the full data
@@ -196,19 +211,38 @@ impl TcpFlow {
     /// # Parameters
     /// - `is_client`: If the data comes from the client.
     fn get_full_data(&self, is_client: bool) -> Vec<u8> {
-        let data: &Vec<TcpData> = if is_client {
-            &self.client_data
+        let (data, isn) = if is_client {
+            (&self.client_data, Some(self.client_isn))
         } else {
-            &self.server_data
+            (&self.server_data, self.server_isn)
         };
 
-        let mut sorted_data = data.clone();
+        // Sequence number of the first stream byte. Without a SYN-ACK (capture started
+        // mid-handshake) fall back to the lowest sequence number seen.
+        let base = match isn {
+            Some(isn) => isn.wrapping_add(1),
+            None => data.iter().map(|d| d.sequence).min().unwrap_or(0),
+        };
 
-        sorted_data.sort_by_key(|tcp_data| tcp_data.sequence);
+        // Order by offset in the stream (modulo 2^32, so a stream that crosses the wrap stays in order)
+        let mut sorted: Vec<&TcpData> = data.iter().filter(|d| !d.data.is_empty()).collect();
+        sorted.sort_by_key(|d| d.sequence.wrapping_sub(base));
 
+        // Take the gap-free run from the first byte; skip bytes already present (retransmissions)
         let mut full_data = Vec::new();
-        for tcp_data in sorted_data {
-            full_data.extend_from_slice(&tcp_data.data);
+        let mut next: u32 = 0;
+        for tcp_data in sorted {
+            let offset = tcp_data.sequence.wrapping_sub(base);
+            if offset > next {
+                break;
+            }
+            let have = next.wrapping_sub(offset) as usize;
+            if let Some(fresh) = tcp_data.data.get(have..) {
+                if !fresh.is_empty() {
+                    full_data.extend_from_slice(fresh);
+                    next = next.wrapping_add(fresh.len() as u32);
+                }
+            }
         }
         full_data
     }
@@ -284,6 +318,12 @@ fn process_tcp_packet(
     let stored_key: FlowKey = if is_client { flow_key } else { reversed_key };
 
     if let Some(flow) = tcp_flow {
+        if tcp.get_flags() & pnet::packet::tcp::TcpFlags::SYN != 0
+            && !is_client
+            && flow.server_isn.is_none()
+        {
+            flow.server_isn = Some(tcp.get_sequence());
+        }
         if !tcp.payload().is_empty() {
             let tcp_data = TcpData { sequence: tcp.get_sequence(), data: Vec::from(tcp.payload()) };
 
@@ -291,22 +331,25 @@ fn process_tcp_packet(
                 // Only add data and parse if not already parsed
                 if !flow.client_http_parsed {
                     flow.client_data.push(tcp_data);
-                    let full_data = flow.get_full_data(is_client);
 
-                    if full_data.len() > MAX_BUFFERED_HEAD_BYTES {
+                    if buffered_len(&flow.client_data) > MAX_BUFFERED_HEAD_BYTES {
                         // No message head is this large: stop buffering this direction
                         debug!("CLIENT: no HTTP head within the buffer limit, giving up");
                         flow.client_data.clear();
                         flow.client_http_parsed = true;
-                    } else if has_complete_http_data(&full_data, processors) {
+                    } else {
+                        let full_data = flow.get_full_data(is_client);
                         // Quick check before expensive parsing (supports HTTP/1.x and HTTP/2)
-                        match parse_http_request(&full_data, processors) {
-                            Ok(Some(http_request_parsed)) => {
-                                observable_http_package.http_request = Some(http_request_parsed);
-                                flow.client_http_parsed = true;
+                        if has_complete_http_data(&full_data, processors) {
+                            match parse_http_request(&full_data, processors) {
+                                Ok(Some(http_request_parsed)) => {
+                                    observable_http_package.http_request =
+                                        Some(http_request_parsed);
+                                    flow.client_http_parsed = true;
+                                }
+                                Ok(None) => {}
+                                Err(_e) => {}
                             }
-                            Ok(None) => {}
-                            Err(_e) => {}
                         }
                     }
                 } else {
@@ -316,25 +359,28 @@ fn process_tcp_packet(
                 // Only add data and parse if not already parsed
                 if !flow.server_http_parsed {
                     flow.server_data.push(tcp_data);
-                    let full_data = flow.get_full_data(is_client);
 
-                    if full_data.len() > MAX_BUFFERED_HEAD_BYTES {
+                    if buffered_len(&flow.server_data) > MAX_BUFFERED_HEAD_BYTES {
                         // No message head is this large: stop buffering this direction
                         debug!("SERVER: no HTTP head within the buffer limit, giving up");
                         flow.server_data.clear();
                         flow.server_http_parsed = true;
-                    } else if has_complete_http_data(&full_data, processors) {
-                        // Quick check before expensive parsing (supports HTTP/1.x and HTTP/2)
-                        match parse_http_response(&full_data, processors) {
-                            Ok(Some(http_response_parsed)) => {
-                                observable_http_package.http_response = Some(http_response_parsed);
-                                flow.server_http_parsed = true;
-                            }
-                            Ok(None) => {}
-                            Err(_e) => {}
-                        }
                     } else {
-                        debug!("SERVER: Data not complete yet, waiting for more");
+                        let full_data = flow.get_full_data(is_client);
+                        // Quick check before expensive parsing (supports HTTP/1.x and HTTP/2)
+                        if has_complete_http_data(&full_data, processors) {
+                            match parse_http_response(&full_data, processors) {
+                                Ok(Some(http_response_parsed)) => {
+                                    observable_http_package.http_response =
+                                        Some(http_response_parsed);
+                                    flow.server_http_parsed = true;
+                                }
+                                Ok(None) => {}
+                                Err(_e) => {}
+                            }
+                        } else {
+                            debug!("SERVER: Data not complete yet, waiting for more");
+                        }
                     }
                 } else {
                     debug!("SERVER: HTTP already parsed, discarding additional data");
